@@ -431,6 +431,7 @@ def pipeline_program(params):
 
         def probe_round(tag):
             dirs = [()] + sorted(p for p, k in drv.tree.items() if k == "dir")
+            made = []
             for d in dirs:
                 drv.nprobe += 1
                 name = f"p{drv.nprobe}"
@@ -441,9 +442,20 @@ def pipeline_program(params):
                 except OSError:
                     continue
                 drv.tree[rel] = "file"
+                made.append(rel)
                 s.log("probe", path=list(rel), depth=len(rel), tag=tag)
             drain()
             s.log("quiescent", tree=drv.listing(), phase="probe")
+            if tag == "mid":
+                # a mid-history probe round must leave the tree as the history expects it: remove the probe files
+                for rel in made:
+                    op = ["unlink", "/".join(rel)]
+                    nops[0] += 1
+                    s.log("opb", n=nops[0], op=drv.describe(op))
+                    drv.do(op)
+                    s.log("op", n=nops[0], tree=drv.listing())
+                drain()
+                s.log("quiescent", tree=drv.listing(), phase="drain")
 
         def drive():
             for op in ops:
